@@ -173,6 +173,34 @@ def gen_flip_prim(rng, var="x"):
         math.hypot(float(d1[0]), float(d1[1])), math.hypot(float(w[0]), float(w[1])) / 4)
 
 
+def scale_node(node, lam, off):
+    """image of the expression under x ↦ lam·x + off (lam a power of two, off dyadic: exact): positions get the affine
+    map, radii the factor"""
+    from geomgen import PF, c
+    def pos(pf):
+        return PF([("+", c(off[j]), ("*", c(lam), t_)) for j, t_ in enumerate(pf.terms)])
+    def rad(pf):
+        return PF([("*", c(lam), t_) for t_ in pf.terms])
+    if node.is_prim():
+        if node.kind in ("circle", "sphere"):
+            return Node(node.kind, node.var, [pos(node.pfs[0]), rad(node.pfs[1])])
+        return Node(node.kind, node.var, [pos(pf) for pf in node.pfs])
+    return Node(node.kind, node.var, [], [scale_node(k_, lam, off) for k_ in node.kids], dict(node.flags))
+
+
+def gen_scale(rng, dim, ratio_min, kmax=9):
+    """size factor 2^k (k in −kmax … kmax) and a dyadic offset with |offset| ≤ (smallest size ≈ lam/4) / ratio_min: shapes from
+    1e-3 to 1e3, centred away from the origin, size / offset ratio down to `ratio_min`"""
+    k = rng.randint(-kmax, kmax)
+    lam = Fr(2) ** k
+    omax = lam / 4 / Fr(ratio_min)
+    unit = Fr(2) ** (math.floor(math.log2(float(omax))) - 3)
+    off = [rng.choice([-1, 1]) * rng.randint(0, 8) * unit for _ in range(dim)]
+    if rng.random() < 0.6:
+        off[rng.randrange(dim)] = rng.choice([-1, 1]) * 8 * unit          # make use of the full offset range
+    return lam, off
+
+
 def gen_bad_interval(rng, params, var="y"):
     """intervals with badly scaled end points (dyadic): tiny upper / lower bound next to a large one, crossing zero
     asymmetrically, nearly equal large bounds; optionally parameter-dependent"""
@@ -275,7 +303,7 @@ def gen_bool(g, rng, depth, var, envs, top=None):
 def make_case(ctx, idx):
     rng = ctx.rng
     mode = rng.choice(["prim2", "prim2", "prim1", "prim3", "bool2", "bool2", "bool2", "bool2", "bool1", "bool3",
-                       "flip2", "flip2", "overinter", "badint", "badint", "touch", "touch"])
+                       "flip2", "flip2", "overinter", "badint", "badint", "touch", "touch", "scaled", "scaled", "scaled"])
     params = rng.choice([[], [], ["t"], ["t"], ["t", "D"]])
     if mode == "flip2":
         params = ["t"]
@@ -313,6 +341,14 @@ def make_case(ctx, idx):
             op = rng.choice(["union", "cut", "inter"])
             node = Node(op, None, [], [a, other])
         wrap = rng.choice(["bdry", "bdry", "bdry", "bdryL", "bdryR"]) if node is a else "bdry"
+    elif mode == "scaled":
+        # shapes across scales and offsets: every modelled primitive and Boolean nodes over them
+        var = rng.choice(["x", "x", "x", "y", "z"])
+        base = g.prim(var) if rng.random() < 0.6 else gen_bool(g, rng, 2, var, envs)
+        polygonal = any(k_ in ("par", "tri") for k_ in base.kinds())
+        # float32 envelope: the barycentric tolerance 1e-5 of parallelogram / triangle needs size / offset ≳ 0.05
+        lam, off = gen_scale(rng, geomgen.DIM[var], Fr(1, 10) if polygonal else Fr(1, 64))
+        node = scale_node(base, lam, off)
     elif mode == "touch":
         params, envs = [], [{}]
         node, _conf = gen_touching(rng)
@@ -533,6 +569,18 @@ def evaluated_rows(case, rep, tp, torch, B, solid, envs, rows):
                 r["error"] = f"normal of the evaluated boundary B(**{ {k_: float(v_) for k_, v_ in vals.items()} }) raised {type(e).__name__}: {str(e)[:160]}"
         out += mine
     return out
+
+
+def far_small_polygonal(solid, env):
+    """a parallelogram / triangle leaf whose smallest side is below 1/40 of its largest coordinate: the float32 rounding of its
+    barycentric coordinates exceeds BARY_ATOL (known finding bary_tolerance_far_small_shapes)"""
+    for lf in leaves(solid):
+        if lf.kind in ("par", "tri"):
+            _, segs, scale = leaf_geom(lf, env)
+            big = max(abs(c_) for a_, _ in segs for c_ in a_)
+            if scale < big / 40:
+                return True
+    return False
 
 
 def is_sampler(src):
@@ -779,8 +827,10 @@ def judge(rep, cs, solid, ent, replies):
         return
     nv = r["n"]
     # ---- property oracles (independent of the model of `normal`)
-    fk = None      # no open finding (known_findings.d/C06.json)
+    fk = None
     finite = all(math.isfinite(a) for a in nv)
+    if not finite and far_small_polygonal(solid, {k_: [Fr(a) for a in v_] for k_, v_ in cs["envs"][r["env"]].items()}):
+        fk = "bary_tolerance_far_small_shapes"
     if not finite:
         rep.fail(f"normal() returned a non-finite vector {nv} at a boundary point ({r['src']})", inp, detail=dict(normal=nv), finding=fk)
     else:
@@ -887,6 +937,13 @@ def bad_interval_cases(ctx):
               out.append(dict(id=10000 + len(out), mode="badint-fixed", wrap=wrap_, dom=node.describe(), params=params,
                             envs=[{k_: [str(a) for a in v_] for k_, v_ in e.items()} for e in envs], n=rng.choice([4, 7, 8]),
                             seed=rng.randint(0, 2 ** 31 - 1), m=2))
+    # known-finding probe: a parallelogram of size 2^-7 near (1, 2) — outside the float32 envelope of BARY_ATOL
+    from geomgen import PF as PF_, c as c_
+    lam = Fr(1, 128)
+    probe = Node("par", "x", [PF_([c_(Fr(1)), c_(Fr(2))]), PF_([c_(1 + lam * Fr(7, 8)), c_(2 + lam * Fr(3, 8))]),
+                              PF_([c_(1 - lam * Fr(3, 8)), c_(2 + lam * Fr(3, 4))])])
+    out.append(dict(id=10000 + len(out), mode="finding-probe", wrap="bdry", dom=probe.describe(), params=[], envs=[{}], n=24,
+                    seed=rng.randint(0, 2 ** 31 - 1), m=2))
     # fixed touching configurations built with the `contained` / `disjoint` flags
     for conf, flagged in (("edge", True), ("corner", True), ("tri-on-edge", True), ("hole", True), ("adjacent", True), ("edge", False)):
         node, _ = gen_touching(rng, conf, flagged)
@@ -904,7 +961,7 @@ def run(ctx, rep, cases=None):
                 "constructed edge / corner / arc points accepted by the boundary's membership test; non-trivial = at least one boundary "
                 "point was obtained and the expression is not a bare constant interval; distinct = distinct (expression, rows, points)")
     if cases is None:
-        cases = [make_case(ctx, i) for i in range(ctx.scale(95, 1300))] + bad_interval_cases(ctx)
+        cases = [make_case(ctx, i) for i in range(ctx.scale(85, 1300))] + bad_interval_cases(ctx)
     evaluate(ctx, rep, cases)
     opaque_streams(ctx, rep)
     h = rep.hist
@@ -977,6 +1034,10 @@ def gen_polygon(rng):
         verts.append((cx + r * DIRS16[i][0], cy + r * DIRS16[i][1]))
     if rng.random() < 0.5:
         verts.reverse()          # clockwise input is allowed by the constructor
+    if rng.random() < 0.6:
+        # across scales and offsets: sizes 2^-9 … 2^9, size / offset ratio down to 1/2048
+        lam, off = gen_scale(rng, 2, Fr(1, 2048))
+        verts = [(lam * a + off[0], lam * b + off[1]) for a, b in verts]
     return verts
 
 
@@ -1225,6 +1286,9 @@ def opaque_streams(ctx, rep):
                  sample=dict(expression="ShapelyPolygon", vertices=[[float(a), float(b)] for a, b in verts], points=k))
     for i in range(ctx.scale(8, 60)):
         V, F = gen_polyhedron(rng)
+        if rng.random() < 0.5:
+            lam, off = gen_scale(rng, 3, Fr(1, 32), kmax=6)
+            V = [[lam * a[j] + off[j] for j in range(3)] for a in V]
         seed = rng.randint(0, 2 ** 31 - 1)
         k = mesh_case(rep, V, F, seed, rng.choice([6, 12]))
         rep.count("mode:polyhedron")
